@@ -587,6 +587,69 @@ func c09(r *rep.Run) {
 		r.Cov["stack_depth_executions"] = stackRuns
 	}
 
+	// ---- (4a) the limits count NODES, not tokens or characters ----
+	// a list literal is one node however many elements it has, redundant
+	// parentheses in infix notation add no node: programs of 3..5 nodes written
+	// with up to 200 000 tokens compile and evaluate
+	{
+		type tj struct {
+			name, src string
+			infix     bool
+			x         int64
+			want      interface{}
+		}
+		var tjs []tj
+		for _, n := range []int{127, 128, 32767, 32768, 65535, 65536, 98301, 98302, 120000, 200000} {
+			var sb strings.Builder
+			for i := 0; i < n; i++ {
+				sb.WriteString(strconv.Itoa(1000+i) + " ")
+			}
+			lst := strings.TrimSpace(sb.String())
+			tjs = append(tjs,
+				tj{sprintf("in over a %d-element literal (member)", n), "(in x (" + lst + "))", false, int64(1000 + n - 1), true},
+				tj{sprintf("in over a %d-element literal (non-member)", n), "(not (in x (" + lst + ")))", false, int64(5), true})
+		}
+		for _, k := range []int{100, 20000, 33000, 60000} {
+			tjs = append(tjs, tj{sprintf("infix sum inside %d redundant parentheses", k), strings.Repeat("(", k) + "x + 1" + strings.Repeat(")", k) + " * 2", true, 20, int64(42)})
+		}
+		var tokRuns int64
+		r.ParallelFor(len(tjs), func(w, i int) {
+			j := tjs[i]
+			h := hs[w]
+			r.Note(w, j.name)
+			for _, b := range []int{0, 15} {
+				o := drive.FromBits(b)
+				o.Infix = j.infix
+				d := map[string]interface{}{"family": j.name, "config": o.String(), "source_prefix": trunc(j.src, 80), "source_length": len(j.src)}
+				e, err := h.Compile(h.NewConfig([]term.VarDecl{{Name: "x", Ty: I}}, o), j.src, 0)
+				atomic.AddInt64(&cases, 1)
+				if pe, ok := err.(*drive.PanicErr); ok {
+					r.Violate("compile-panic", "tokens"+pe.Site, sprintf("%s: Compile panics under %s: %v (at %s)", j.name, o, pe.V, pe.Site), d)
+					continue
+				}
+				if err != nil {
+					r.Violate("rejected-below-limit", "tokens"+o.String(), sprintf("%s (a program of at most 5 nodes) is rejected under %s: %v", j.name, o, err), d)
+					continue
+				}
+				for mode := 0; mode < 2; mode++ {
+					h.Reset()
+					var got drive.Out
+					if mode == 0 {
+						got = h.Eval(e, c9fetch{j.x})
+					} else {
+						got = h.TryEval(e, c9fetch{j.x})
+					}
+					atomic.AddInt64(&tokRuns, 1)
+					if !drive.SameOutcome(got, drive.Out{Val: j.want}) {
+						r.Violate("wrong-value", "tokens"+o.String(), sprintf("%s under %s: %s instead of %v", j.name, o, got, j.want), d)
+					}
+				}
+			}
+		})
+		evals += tokRuns
+		r.Cov["few_nodes_many_tokens_members"] = len(tjs)
+	}
+
 	// ---- (4b) one caller context across programs of different stack classes ----
 	// A caller may evaluate any number of programs with one Ctx; the operand
 	// stack each evaluation gets must fit THAT program whatever ran before on
